@@ -186,9 +186,13 @@ impl Append for RollingFileAppender {
 
             let log_writer_new = self.get_writer(&mut writer)?;
             self.encoder.encode(log_writer_new, record)?;
+            #[cfg(feature = "verif_hooks")]
+            crate::verif::point("rolling.append.encoded", 1);
             log_writer_new.flush()?;
         } else {
             self.encoder.encode(log_writer, record)?;
+            #[cfg(feature = "verif_hooks")]
+            crate::verif::point("rolling.append.encoded", 0);
             log_writer.flush()?;
             let len = log_writer.len;
 
